@@ -55,7 +55,7 @@ VECS = [
     (2, [0.0, 0.25, 0.5, 1.0], [3, 1, 1, 3]),
 ]
 OPS = ["eval", "basis", "knot_insert", "knot_remove", "degree_increase", "degree_decrease", "split", "join", "add", "mul", "fit_curve",
-       "fit_points", "integrate"]
+       "fit_points", "fit_points_square", "integrate"]
 
 
 def configs(tier, seed):
@@ -84,9 +84,12 @@ def configs(tier, seed):
                     continue  # (elevating a multi-span curve inverts a matrix: concrete knots only, see minimal K)
                 seen.add((p, tuple(pat), op))
                 cfgs.append(dict(name=f"minimal S p={p} mults={pat} {op}", kind="minimalS", p=p, mults=pat, op=op))
+                if p <= 2:
+                    cfgs.append(dict(name=f"minimal S p={p} mults={pat} {op} rat", kind="minimalS", p=p, mults=pat, op=op, rat=True))
     for k, (p, vals, mults) in enumerate(vecs[:4]):
         for op in ("eval", "knot_insert", "degree_increase", "split"):
             cfgs.append(dict(name=f"minimal K vec{k} {op}", kind="minimalK", p=p, vals=vals, mults=mults, op=op))
+            cfgs.append(dict(name=f"minimal K vec{k} {op} rat", kind="minimalK", p=p, vals=vals, mults=mults, op=op, rat=True))
     return cfgs
 
 
@@ -158,6 +161,12 @@ def outputs_of(op, Curve, Function, knots, P, extra):
         n = len(P)
         t = Curve(list(knots))
         t.fit_points(list(extra["Z"]))
+        return list(t.ctrlpoints)
+    if op == "fit_points_square":
+        n = len(P)
+        t = Curve(list(knots))
+        nodes = [lo + (hi - lo) * type(lo)(k) / (n - 1) for k in range(n)] if n > 1 else [lo]
+        t.fit_points(list(extra["Z"])[:n])          # as many points as control points: a square system
         return list(t.ctrlpoints)
     if op == "integrate":
         return [Integrate.scalar(c)]
@@ -293,16 +302,24 @@ def body(env, cfg):
     kv = KV(t, mults)
     X, Y = env.reals("X", kv.n), env.reals("Y", kv.n)
     pts = [MinimalPoint(x, y) for x, y in zip(X, Y)]
+    Wm = conc_weights(kv.n, 17) if cfg.get("rat") else None
+    if Wm is not None and env.sym and kind == "minimalS":
+        from compmec.nurbs import heavy  # symbolic knots make the new weights symbolic: find_roots (float sampling) is stubbed
+        env.patch(heavy, "find_roots", lambda *a, **k: ())
     try:
-        c = Curve(list(kv.U), pts)
+        c = Curve(list(kv.U), pts, Wm)
         op = cfg["op"]
         if op == "eval":
             u = env.real("u")
             env.assume((t[0] <= u) & (u <= t[-1]))
             val = c(u)
             d = kv.locate(u)
-            env.eq("minimal points: evaluation, x", val.x, curve_value(kv, X, None, u, d))
-            env.eq("minimal points: evaluation, y", val.y, curve_value(kv, Y, None, u, d))
+            rx, ry = curve_value(kv, X, Wm, u, d), curve_value(kv, Y, Wm, u, d)
+            if Wm is not None:
+                from ..ref import divnz
+                rx, ry = divnz(rx[0], rx[1]), divnz(ry[0], ry[1])
+            env.eq("minimal points: evaluation, x", val.x, rx)
+            env.eq("minimal points: evaluation, y", val.y, ry)
             return
         if op == "knot_insert":
             z = (t[0] + t[1]) / 2
@@ -317,13 +334,14 @@ def body(env, cfg):
             c = pieces[0]
             kv2 = KV([t[0], z], [p + 1, p + 1], p)
         QX, QY = [q.x for q in c.ctrlpoints], [q.y for q in c.ctrlpoints]
-        env.holds("minimal points: number of control points", len(QX) == kv2.n)
+        Wq = None if c.weights is None else list(c.weights)
+        env.holds("minimal points: number of control points", len(QX) == kv2.n and (Wq is None) == (Wm is None))
         if kind == "minimalS":
-            same_function(env, kv, X, None, kv2, QX, None, 0, f"minimal points {op} x")
-            same_function(env, kv, Y, None, kv2, QY, None, 0, f"minimal points {op} y")
+            same_function(env, kv, X, Wm, kv2, QX, Wq, 0, f"minimal points {op} x")
+            same_function(env, kv, Y, Wm, kv2, QY, Wq, 0, f"minimal points {op} y")
         else:
             hi = kv2.vals[-1]
-            kmode.same_function(env, f"minimal points {op} x", kv, X, None, kv2, QX, None, lo=kv2.vals[0], hi=hi)
-            kmode.same_function(env, f"minimal points {op} y", kv, Y, None, kv2, QY, None, lo=kv2.vals[0], hi=hi)
+            kmode.same_function(env, f"minimal points {op} x", kv, X, Wm, kv2, QX, Wq, lo=kv2.vals[0], hi=hi)
+            kmode.same_function(env, f"minimal points {op} y", kv, Y, Wm, kv2, QY, Wq, lo=kv2.vals[0], hi=hi)
     except TypeError as e:
         env.fail(f"control points supporting only point+point and number*point are not enough: TypeError {str(e)[:90]}")
